@@ -63,6 +63,19 @@ IntCases ==
       THEN << [k |-> "p+g (wraps to g if reduced)", b |-> NToBytes(NAdd(p, G.g), n)] >> ELSE <<>>)
 
 (* ---- Edwards ------------------------------------------------------------- *)
+(* y coordinates with a regular bit structure (see Structured above), both sign bits *)
+EdStructured ==
+  IF "step" \notin DOMAIN D THEN <<>>
+  ELSE LET q == G.Q  step == D.step
+           raw(y, s) == LET b == NToBytesLE(y, 32) IN [b EXCEPT ![32] = b[32] + 128 * s]
+           pos == {k \in 0..(NBitLen(q) - 1) : step = 1 \/ k % step \in {0, 1, step - 1}}
+           vals == UNION { LET v == NMul(NLit(m), BigPow2(k)) IN
+                           {v, NAdd(v, NLit(1)), NSub(v, NLit(1)), NMod(NSub(NMul(q, NLit(8)), v), q)}
+                           : <<m, k>> \in {1, 3, 5} \X pos }
+           ok == {v \in vals : NBitLen(v) <= 255}
+           seqOf == SeqOfSet(ok)
+       IN [i \in 1..(2 * Len(seqOf)) |-> [k |-> "structured y", b |-> raw(seqOf[(i + 1) \div 2], i % 2)]]
+
 RECURSIVE FirstY(_, _)
 (* first y >= y0 whose even-x candidate is a curve point with full 8-part      *)
 FirstY(y0, want) ==
@@ -110,6 +123,7 @@ EdCases ==
            [k |-> "doubled", b |-> eB \o eB],
            [k |-> "empty", b |-> <<>>] >>
      \o [k \in 1..18 |-> [k |-> "y + Q for small y", b |-> raw(NAdd(q, NLit(k)), k % 2)]]
+     \o EdStructured
 
 Cases == IF IsEd(G) THEN EdCases ELSE IntCases
 ASSUME PrintT("GEN " \o ToJson([k \in 1..Len(Cases) |-> [k |-> Cases[k].k, b |-> BytesToHex(Cases[k].b)]]))
